@@ -358,6 +358,16 @@ func (r *Run) Report() *RunReport {
 			}
 		}
 	}
+	if r.Sc.Prop == "C17" {
+		// text that was accepted and cannot be read back - because no read works
+		// any more - did not "come back exactly as it went in"
+		for i := range rep.V {
+			if rep.V[i].Oracle == "read-failed" && rep.V[i].Prop != "C17" {
+				rep.V[i].Sig = "as-" + rep.V[i].Prop + ":" + rep.V[i].Sig
+				rep.V[i].Prop = "C17"
+			}
+		}
+	}
 	if r.Sc.Prop == "C18" {
 		// under layout/spelling variation the refinement oracle IS the property
 		for i := range rep.V {
